@@ -36,7 +36,7 @@ PROBES = ["rejected_assignment_after_accepted_ones", "upstream_with_hyphen_reder
           "epoch_added_to_upstream_containing_colon", "trailing_newline_string",
           "non_ascii_digit_epoch", "hyphen_without_valid_revision", "none_upstream",
           "rejected_construct", "rollback_checked_on_other_handles", "empty_string_optional_part",
-          "operation_retried"]
+          "operation_retried", "long_run_of_distinct_versions_in_one_process"]
 
 LETTERS = "abcdefghijklmnopqrstuvwxyzABCDEFGHIJKLMNOPQRSTUVWXYZ"
 DIG = "0123456789"
@@ -181,6 +181,12 @@ def generate(seed, run, tier):
                                        "debian_revision": "rev", "debian_version": "rev",
                                        "full_version": "full"}[a])
         steps.append(st)
+    if rs.random() < (0.0008 if tier == "quick" else 0.003):
+        # other clients of the same process: a long run of distinct, valid versions
+        # (construction and epoch assignment) somewhere inside this history
+        steps.insert(rq.randrange(1, len(steps) + 1),
+                     {"h": rq.randrange(nh), "op": "churn", "n": rs.choice([300, 9000, 20000]),
+                      "base": rq.choice([0, 7, 100000])})
     return {"world": {"handles": nh}, "trace": steps}
 
 
@@ -282,6 +288,29 @@ def execute(case):
                                     {"step": si, "string": s})
                 sut[k] = v
                 model[k] = want
+        elif op == "churn":
+            out.probe("long_run_of_distinct_versions_in_one_process")
+            for i in range(st["base"], st["base"] + st["n"]):
+                s = "%d:%d.%d-%d" % (i, i % 7, i, i % 3)
+                want = (str(i), "%d.%d" % (i % 7, i), str(i % 3))
+                try:
+                    if sut[k] is not None and i % 2:
+                        sut[k].epoch = str(i)
+                        model[k] = (str(i), model[k][1], model[k][2])
+                        got, wanted = _obs(sut[k]), _want(model[k])
+                    else:
+                        got, wanted = _obs(Version(s)), _want(want)
+                except Exception as e:   # pylint: disable=broad-except
+                    raise Violation("valid-version-string-rejected", "churn",
+                                    {"step": si, "string": s, "index": i, "error": repr(e),
+                                     "handle_observed": None if sut[k] is None else
+                                     _obs(sut[k]), "handle_model": model[k]})
+                if got != wanted:
+                    raise Violation("observables-differ-from-decomposition", "churn",
+                                    {"step": si, "string": s, "got": got, "want": wanted})
+            log.add(si, k, "churn", st["n"], st["base"])
+            inter.append((k, "churn", st["n"]))
+            accepted += 1
         elif op == "set":
             if sut[k] is None:
                 continue
@@ -375,6 +404,11 @@ def shrink_candidates(case):
         c["world"]["handles"] -= 1
         yield c
     for i, st in enumerate(case["trace"]):
+        if st.get("op") == "churn" and st["n"] > 1:
+            for nn in (st["n"] // 2, st["n"] - 1):
+                c = copy.deepcopy(case)
+                c["trace"][i]["n"] = nn
+                yield c
         for key in ("s", "val"):
             v = st.get(key)
             if isinstance(v, str) and len(v) > 1:
